@@ -318,6 +318,56 @@ pub fn run(cfg: &Cfg) -> Report {
     for f in law_fail.into_iter().take(20) {
         rep.violate(json!({"case": "order laws over all i8 triples", "what": f}));
     }
+    // ---- (e) individuals compare exactly as their results do - also when the results are incomparable
+    // (a score against an error; float totals that are NaN): every operator false, partial_cmp = None, never Equal
+    {
+        let mut bad: Vec<String> = vec![];
+        type IndR = EcIndividual<u8, TestResult<i64, i64>>;
+        let vals = [i64::MIN, -1, 0, 1, 7, i64::MAX];
+        for &x in &vals { for &y in &vals { for (ga, gb) in [(1u8, 1u8), (1, 2)] {
+            let a: IndR = EcIndividual::new(ga, TestResult::Score(Score(x)));
+            let b: IndR = EcIndividual::new(gb, TestResult::Error(Error(y)));
+            for (p, q) in [(&a, &b), (&b, &a)] {
+                let want = p.test_results.partial_cmp(&q.test_results);
+                if want.is_some() { bad.push(format!("TestResult: a score ({x}) is comparable to an error ({y})")); }
+                if p.partial_cmp(q) != want || p < q || p <= q || p > q || p >= q || p == q {
+                    bad.push(format!("individuals with results Score({x}) / Error({y}) (genomes {ga},{gb}): partial_cmp = {:?}, < {} <= {} > {} >= {} == {}; their results are incomparable", p.partial_cmp(q), p < q, p <= q, p > q, p >= q, p == q));
+                }
+            }
+            // same-variant individuals compare as the values do
+            let c: IndR = EcIndividual::new(gb, TestResult::Score(Score(y)));
+            if a.partial_cmp(&c) != Some(x.cmp(&y)) { bad.push(format!("individuals with Score({x}) / Score({y}): partial_cmp = {:?}", a.partial_cmp(&c))); }
+            let e1: IndR = EcIndividual::new(ga, TestResult::Error(Error(x)));
+            if e1.partial_cmp(&b) != Some(y.cmp(&x)) { bad.push(format!("individuals with Error({x}) / Error({y}): partial_cmp = {:?}", e1.partial_cmp(&b))); }
+        } } }
+        type IndF = EcIndividual<u8, TestResults<Score<f64>>>;
+        let fl = [f64::NAN, -1.0, 0.0, -0.0, 2.5, f64::INFINITY];
+        for &x in &fl { for &y in &fl {
+            let a: IndF = EcIndividual::new(1, TestResults { results: vec![Score(x)], total_result: Score(x) });
+            let b: IndF = EcIndividual::new(2, TestResults { results: vec![Score(y)], total_result: Score(y) });
+            let want = x.partial_cmp(&y);
+            if a.partial_cmp(&b) != want || a.test_results.partial_cmp(&b.test_results) != want || (a < b) != (x < y) || (a <= b) != (x <= y) || (a > b) != (x > y) || (a >= b) != (x >= y) {
+                bad.push(format!("individuals with float totals {x} / {y}: partial_cmp = {:?}, the totals give {want:?}", a.partial_cmp(&b)));
+            }
+        } }
+        // ---- (f) a TestResults value overwritten by clone_from is the value it was cloned from (total included)
+        for (n1, n2) in [(0usize, 3usize), (3, 0), (2, 5), (4, 4)] {
+            let src: TestResults<Score<i64>> = (0..n2 as i64).map(|k| 10 * k + 1).collect();
+            let mut dst: TestResults<Score<i64>> = (0..n1 as i64).map(|k| 1000 - k).collect();
+            dst.clone_from(&src);
+            let mut dv: Vec<TestResults<Error<i64>>> = vec![(0..n1 as i64).collect(), vec![5i64, 5].into()];
+            let sv: Vec<TestResults<Error<i64>>> = vec![(0..n2 as i64).map(|k| 3 * k).collect(), vec![7i64].into()];
+            dv.clone_from(&sv);
+            let sum_ok = |t: &TestResults<Error<i64>>| t.total_result.0 == t.results.iter().map(|r| r.0).sum::<i64>();
+            if dst != src || dst.total_result.0 != src.results.iter().map(|r| r.0).sum::<i64>() || dv != sv || !dv.iter().all(sum_ok) {
+                bad.push(format!("clone_from: a TestResults with {n1} results overwritten from one with {n2} results has total {} for results {:?}", dst.total_result.0, dst.results.iter().map(|r| r.0).collect::<Vec<_>>()));
+            }
+        }
+        rep.hit_n("incomparable-results / clone_from oracles", 1);
+        for f in bad.into_iter().take(10) {
+            rep.violate(json!({"case": "individuals and result collections compare / aggregate as their totals do", "what": f}));
+        }
+    }
     rep.exhaustive = true;
     rep.notes.push(format!("exhaustive: all 65536 i8 pairs and all {} i64 boundary pairs through the model; all i8 triples ({} transitivity instances) as model-free oracle; sampled: {n_sum} result vectors, {n_gen} generator runs", I64_POOL.len() * I64_POOL.len(), n_laws));
     rep
